@@ -427,6 +427,9 @@ pub struct NodeCfg {
     pub rng_seed: u64,
     pub nat: Nat,
     pub skew_micros: i64,
+    /// Build the bootstrap list with `no_bootstrap()` + `extra_bootstrap(list)` instead of
+    /// `bootstrap(list)` (the two spell the same configuration).
+    pub via_extra_bootstrap: bool,
 }
 
 impl NodeCfg {
@@ -442,6 +445,7 @@ impl NodeCfg {
             rng_seed: u32::from_be_bytes(ip) as u64 ^ ((port as u64) << 32),
             nat: Nat::None,
             skew_micros: 0,
+            via_extra_bootstrap: false,
         }
     }
     pub fn server(mut self) -> Self {
@@ -837,7 +841,12 @@ impl World {
             builder.server_mode();
         }
         let boot: Vec<String> = cfg.bootstrap.iter().map(|a| a.to_string()).collect();
-        builder.bootstrap(&boot);
+        if cfg.via_extra_bootstrap {
+            builder.no_bootstrap();
+            builder.extra_bootstrap(&boot);
+        } else {
+            builder.bootstrap(&boot);
+        }
         builder.port(cfg.port);
         if let Some(ip) = cfg.public_ip {
             builder.public_ip(ip);
